@@ -76,6 +76,11 @@ func raceRun(en *Env, i int, stats map[string]int) {
 	r := en.R
 	cfg := h.Cfg{Index: h.IndexTypes[i%3], Shards: []int{1, 2, 16}[r.Intn(3)], IO: h.IOTypes[(i/3)%2], Limit: []int64{400, 3000, 1 << 20}[i%3], Sync: h.SyncKinds[r.Intn(3)], BPS: 64}
 	nkeys := 8
+	if i%3 == 2 && i%6 != 5 {
+		// (the runs that start on a merged and restarted database: several rewritten files, memory-mapped every other time)
+		cfg.Limit = 3000
+		cfg.IO = h.IOTypes[1-(i/6)%2]
+	}
 	dir := en.FreshDir()
 	defer en.Drop(dir)
 	u := h.SimpleKeys(nkeys, 6)
@@ -88,6 +93,29 @@ func raceRun(en *Env, i int, stats map[string]int) {
 	db, err := kv.Open(opts)
 	if err != nil {
 		return
+	}
+	if i%3 == 2 && !bg {
+		// every third run starts on a database that was written, merged and restarted: the restart adopts the merge and
+		// indexes the rewritten files through the hint file, so the callers below are the first to touch those files
+		func() {
+			pr := rand.New(rand.NewSource(int64(i)*31 + 5))
+			for j := 0; j < 60; j++ {
+				b := make([]byte, 500+pr.Intn(700))
+				pr.Read(b)
+				if db.Put(u.Key(1+pr.Intn(nkeys)), b) != nil {
+					return
+				}
+			}
+			if db.Merge() != nil || db.Close() != nil {
+				stats["prelude_failed"]++
+				return
+			}
+			stats["preludes"]++
+		}()
+		db, err = kv.Open(opts)
+		if err != nil {
+			return
+		}
 	}
 	kv.VerifPoint = func(name string, arg uint32) {
 		if arg%3 == 0 {
@@ -103,12 +131,29 @@ func raceRun(en *Env, i int, stats map[string]int) {
 		cr.Read(b)
 		return b
 	}
+	prelude := i%3 == 2 && !bg
+	startGun := make(chan struct{})
+	defer func() {
+		select {
+		case <-startGun:
+		default:
+			close(startGun)
+		}
+	}()
 	for w := 0; w < nworkers; w++ {
 		wg.Add(1)
 		seed := r.Int63()
 		go func(w int) {
 			defer wg.Done()
 			cr := rand.New(rand.NewSource(seed))
+			if prelude {
+				// all callers read every key first: the first accesses to the adopted files happen at the same time
+				<-startGun
+				for k := 1; k <= nkeys; k++ {
+					key := u.Key(1 + (k+w)%nkeys)
+					lg.add("Get", guardName(func() error { _, err := db.Get(key); return err }))
+				}
+			}
 			for j := 0; j < ops; j++ {
 				key := u.Key(1 + cr.Intn(nkeys))
 				switch x := cr.Intn(100); {
@@ -158,6 +203,7 @@ func raceRun(en *Env, i int, stats map[string]int) {
 			}
 		}(w)
 	}
+	close(startGun)
 	if bg {
 		// keep writing until the background goroutine has had two ticks
 		wg.Add(1)
